@@ -184,7 +184,7 @@ class TU:
                 scope = self.qname[n['parentDeclContextId']] + '::'
             q = scope + (name or '(anon)')
             if k == 'ClassTemplateSpecializationDecl':
-                q += '<' + ','.join(self._targs(n)) + '>'
+                q += '<' + ', '.join(self._targs(n)) + '>'
             self.qname[i] = q
             if n.get('completeDefinition') and not in_pattern:
                 self.records.setdefault(q, n)
@@ -519,7 +519,7 @@ class Lowerer:
             return self._locals[i]
         if k in FUNKINDS:
             return self._fnref(r)
-        if k == 'BindingDecl':
+        if k in ('BindingDecl', 'DecompositionDecl'):
             if i in self._locals: return self._locals[i]
         raise Unsupported('DeclRefExpr to %s at %s' % (k, self.where(n)))
 
@@ -1064,7 +1064,24 @@ class Lowerer:
         return '%s%s %s = %s;\n' % (ind, ct, name, self.expr(init))
 
     def _decomp(self, d, ind):
-        raise Unsupported('structured binding at ' + self.where(d))
+        # auto [a, b] = e;  for a record with public fields: one hidden object, the bindings are its members
+        t = d['type']
+        if self._strip_cv(t['qualType']).endswith('&'): raise Unsupported('structured binding by reference at ' + self.where(d))
+        if not self.is_record_type(t): raise Unsupported('structured binding of a non-record at ' + self.where(d))
+        self._tmpn += 1
+        name = '__d%d' % self._tmpn
+        self._localnames.add(name); self._locals[d['id']] = name
+        init = None; binds = []
+        for c in d.get('inner', []):
+            if c.get('kind') == 'BindingDecl': binds.append(c)
+            elif not (c.get('kind', '').endswith('Attr')): init = c
+        if init is None: raise Unsupported('structured binding without initialiser')
+        out = '%s%s %s; %s;\n' % (ind, self.ctype(t), name, self.construct_into(init, name))
+        for b in binds:
+            e = b['inner'][0]
+            if e.get('kind') != 'MemberExpr': raise Unsupported('structured binding through the tuple protocol at ' + self.where(d))
+            self._locals[b['id']] = '(%s.%s)' % (name, e['name'])
+        return out
 
     def s_IfStmt(self, n, ind):
         parts = n['inner']
